@@ -7,6 +7,7 @@ pub mod index;
 pub mod laws;
 pub mod limits;
 pub mod order;
+pub mod stmts;
 pub mod tlp;
 
 use crate::common::cypher::{QErr, Rows, run_read};
